@@ -143,7 +143,11 @@ def run(cid, tier, jobs=0):
             inconclusive.append('required monitor/anchor %r was never '
                                 'reached' % name)
     for name in getattr(mod, 'ANCHORS', []):
-        if reach and not any(k.endswith(':' + name) for k in reach):
+        # an anchor names a mechanism, not one code object: a function
+        # turned into a class (`errstate` -> `errstate.__enter__`) or given
+        # inner helpers still counts as executed
+        if reach and not any(k.endswith(':' + name) or
+                             (':' + name + '.') in k for k in reach):
             inconclusive.append('anchored mechanism %r was never executed' %
                                 name)
     min_nt = plan.get('min_nontrivial', 2)
